@@ -842,6 +842,7 @@ static void cmd_scan(char* args) {
     }
 #ifdef VERIF_UNITY
     else if (strcmp(name, "ident") == 0) {
+#ifdef HAVE_S_IDENT
         edn_identifier_scan_t r = scan_identifier(s, e);
         if (!r.valid)
             printf("invalid\n");
@@ -849,6 +850,9 @@ static void cmd_scan(char* args) {
             printf("valid len=%zu ns=%ld nslen=%zu name=%ld namelen=%zu\n", r.length,
                    r.namespace ? (long) (r.namespace - p.ptr) : -1L, r.ns_length,
                    (long) (r.name - p.ptr), r.name_length);
+#else
+        printf("unsupported\n");
+#endif
     }
 #endif
     else {
@@ -911,27 +915,37 @@ static void cmd_num(char* args) {
         size_t n;
         unsigned char* b = unhex(hex, &n);
         placed_t p = place_input(b, n ? n : 1);
+#ifdef HAVE_N_I64
         int64_t out = 0;
         bool ok = parse_int64_from_buffer(p.ptr, p.ptr + n, &out, (uint8_t) radix, neg != 0);
         if (ok)
             printf("some %lld\n", (long long) out);
         else
             printf("none\n");
+#else
+        (void) radix; (void) neg;
+        printf("unsupported\n");
+#endif
         release_input(p);
         free(b);
     } else if (strcmp(name, "d8") == 0) {
         char* hex = strtok(NULL, " \n");
         size_t n;
         unsigned char* b = unhex(hex, &n);
+#ifdef HAVE_N_D8
         bool all = is_made_of_eight_digits_fast((const char*) b);
         uint32_t v = parse_eight_digits_unrolled((const char*) b);
         printf("%d %u\n", all ? 1 : 0, (unsigned) v);
+#else
+        printf("unsupported\n");
+#endif
         free(b);
     } else if (strcmp(name, "dbl") == 0) {
         char* hex = strtok(NULL, " \n");
         size_t n;
         unsigned char* b = unhex(hex, &n);
         placed_t p = place_input(b, n ? n : 1);
+#ifdef HAVE_N_DBL
         bool dbl_oom = false;
         double d = parse_double_from_buffer(p.ptr, p.ptr + n, &dbl_oom);
         uint64_t u;
@@ -939,6 +953,9 @@ static void cmd_num(char* args) {
         if (isnan(d))
             u = 0x7ff8000000000000ULL;
         printf("%016llx\n", (unsigned long long) u);
+#else
+        printf("unsupported\n");
+#endif
         release_input(p);
         free(b);
     }
@@ -949,10 +966,15 @@ static void cmd_num(char* args) {
         if (sigsetjmp(alarm_jmp, 1)) {
             printf("timeout\n");
         } else {
+#ifdef HAVE_N_GCD
             cpu_alarm(2);
             int64_t g = ratio_gcd((int64_t) a, (int64_t) bb);
             cpu_alarm(0);
             printf("%lld\n", (long long) g);
+#else
+            (void) a; (void) bb;
+            printf("unsupported\n");
+#endif
         }
     }
 #endif
@@ -1386,7 +1408,14 @@ static void cmd_script(char* args) {
 /* ------------------------------------------------------------------ */
 /* B : the collection builder under an allocation schedule (unity)      */
 /* ------------------------------------------------------------------ */
-#ifdef VERIF_UNITY
+#if defined(VERIF_UNITY) && !defined(HAVE_B_BUILDER)
+static void cmd_builder(char* args) {
+    (void) args;
+    printf("unsupported\n");
+    fflush(stdout);
+}
+#endif
+#if defined(VERIF_UNITY) && defined(HAVE_B_BUILDER)
 /* B <initcap> <n> <schedule of 0/1 or -> */
 static void cmd_builder(char* args) {
     char* ic = strtok(args, " \n");
